@@ -171,3 +171,25 @@ M("C14", "C14-GUARD", MP, "        if len(good_samples_idx) == 0:\n            r
 M("C06", "C06-ROWS", MP, "    task_args = (prior_samples_file, joker_helper, n_linear_samples)\n", "    samples_idx = np.sort(samples_idx)\n    task_args = (prior_samples_file, joker_helper, n_linear_samples)\n", "make_full_samples sorts the accepted rows (seeded C06-A)")
 M("C06", "C06-CHAIN", LH, "        start_idx += n_process\n\n        n_ll_evals = len(all_marg_lls)\n        n_need = n_requested_samples - n_good\n        n_process = int(safety_factor * n_need / n_good * n_ll_evals)\n",
   "        n_ll_evals = len(all_marg_lls)\n        n_need = n_requested_samples - n_good\n        n_process = int(safety_factor * n_need / n_good * n_ll_evals)\n        start_idx += n_process\n", "cursor advanced by the next size (seeded C06-B)")
+
+# ---------------------------------------------------------------- C18
+M("C18", "C18-GUARD", PR, "                    \"distribution for all parameters.\"\n                )\n                raise ValueError(msg)\n", "                    \"distribution for all parameters.\"\n                )\n                logger.warning(msg)\n                continue\n", "missing parameter only warns")
+M("C18", "C18-GUARD", PR, "            if not hasattr(pars[name], xu.UNIT_ATTR_NAME):\n", "            if name != 'e' and not hasattr(pars[name], xu.UNIT_ATTR_NAME):\n", "unit check exempts one parameter")
+M("C18", "C18-GUARD", PR, "        for name in self.par_names:\n            if name not in pars:", "        for name in self._nonlinear_equiv_units:\n            if name not in pars:", "presence/unit loop over the nonlinear names only")
+M("C18", "C18-GUARD", PR, "            if not getattr(pars[name], xu.UNIT_ATTR_NAME).is_equivalent(equiv_unit):\n", "            if False and not getattr(pars[name], xu.UNIT_ATTR_NAME).is_equivalent(equiv_unit):\n", "unit equivalence check disabled")
+M("C18", "C18-GUARD", PR, "        for name in list(self._linear_equiv_units.keys()) + list(\n            self._v0_offsets_equiv_units.keys()\n        ):", "        for name in list(self._linear_equiv_units.keys()):", "offset priors escape the Normal-only check")
+M("C18", "C18-", PR, "p.owner.op._print_name[0] not in [\"Normal\", \"FixedCompanionMass\"]", "p.owner.op._print_name[0] not in [\"Normal\", \"FixedCompanionMass\", \"Uniform\"]", "allow-list widened")
+M("C18", "C18-GUARD", PR, "            ) or p.owner.op._print_name[0] not in [\"Normal\", \"FixedCompanionMass\"]:", "            ) or \"normal\" not in p.owner.op.name:", "substring match on the op name (seeded C18-A)")
+M("C18", "C18-GUARD", PR, "        self._all_par_unit_equiv = {", "        self.pars = pars\n        self._all_par_unit_equiv = {", "pars stored before validation; then a failing validation leaves... (hoisted store)")
+M("C18", "C18-GUARD", DH, "    if (len(np.unique(ids)) - 1) != n_offsets:", "    if (len(np.unique(ids)) - 1) < n_offsets:", "count mismatch only rejected one way")
+M("C18", "C18-GUARD", DH, "        if d._has_cov:\n            raise NotImplementedError(", "        if d._has_cov and len(data) > 2:\n            raise NotImplementedError(", "covariance sources accepted for two surveys")
+M("C18", "C18-GUARD", DH, "        if n_offsets != 0:\n            raise ValueError(", "        if n_offsets > 1:\n            raise ValueError(", "single source with one offset accepted")
+M("C18", "C18-GUARD", TJ, "        elif not isinstance(rng, np.random.Generator):\n            msg = (", "        elif False:\n            msg = (", "rng type check disabled")
+M("C18", "C18-GUARD", PH, "                raise ValueError(\n                    \"If specifying the standard-deviations", "                continue\n                raise ValueError(\n                    \"If specifying the standard-deviations", "sigma_v key check skipped")
+M("C18", "C18-GUARD", PYX, "        if (trend_M.shape[0] != self.n_times\n                or trend_M.shape[1] != self.n_linear - 1):", "        if (trend_M.shape[0] != self.n_times):", "design matrix column count unchecked")
+M("C18", "C18-TRY", PH, "    try:\n        n_offsets = int(n_offsets)\n    except Exception:\n        raise ValueError(", "    try:\n        n_offsets = int(n_offsets)\n    except Exception:\n        n_offsets = 0\n        ValueError(", "bad n_offsets silently becomes 0")
+M("C18", "C18-ORDER", PR, "            list(self._nonlinear_equiv_units.keys())\n            + list(self._linear_equiv_units.keys())\n            + list(self._v0_offsets_equiv_units)", "            list(self._nonlinear_equiv_units.keys())\n            + list(self._v0_offsets_equiv_units)\n            + list(self._linear_equiv_units.keys())", "par_names order changed")
+M("C18", "C18-COUNT", TJ, "            data, self.prior.poly_trend, self.prior.n_offsets\n        )\n        return CJokerHelper(all_data, self.prior, trend_M)", "            data, self.prior.poly_trend, 0 if not hasattr(data, 'keys') and not isinstance(data, (list, tuple)) else self.prior.n_offsets\n        )\n        return CJokerHelper(all_data, self.prior, trend_M)", "offset count not checked for single sources")
+T("C18", PR, "                    f\"Missing prior for parameter '{name}': you must specify a prior \"", "                    f\"No prior for parameter '{name}': you must specify a prior \"", "message text changed")
+T("C18", PR, "            if not isinstance(\n                p.owner.op, pt.random.op.RandomVariable\n            ) or p.owner.op._print_name[0] not in [\"Normal\", \"FixedCompanionMass\"]:", "            if not (isinstance(p.owner.op, pt.random.op.RandomVariable) and p.owner.op._print_name[0] in [\"Normal\", \"FixedCompanionMass\"]):", "De Morgan")
+T("C18", DH, "    if (len(np.unique(ids)) - 1) != n_offsets:", "    if len(np.unique(ids)) != n_offsets + 1:", "rearranged count comparison")
